@@ -18,7 +18,7 @@ def gen(rnd):
         cat = []
     else:
         ck = {"ctor2": "ctor2", "ctorboom": "ctorboom"}.get(kind, "plain")
-        msg = ["inst", rnd.choice(["mymod", "pkg.tests.test_w"]), rnd.choice(["MyWarning", "Other"]), ck, int(kind == "undumpable"), rnd.randint(0, 2), ""]
+        msg = ["inst", rnd.choice(["mymod", "pkg.tests.test_w"]), rnd.choice(["MyWarning", "Other"]), ck, rnd.choice([1, 2, 3, 4]) if kind == "undumpable" else rnd.choice([0, 0, 0, 5]) if ck == "plain" else 0, rnd.randint(0, 2), ""]
         cat = []
         if kind == "unimportable":
             importable = False
@@ -77,6 +77,10 @@ def run(out: common.Outcome):
         obs.append([o, r["handled"]])
         # monitors: the property itself (what the controller's event handler does with the warning)
         h = r["handled"]
+        if r.get("wire") != "ok":
+            out.report({"kind": "warning-event-cannot-be-sent", "case": j["_k"], "arg": j["msg"][4] if j["msg"][0] == "inst" else None},
+                       {"job": j, "wire": r.get("wire")}, j)
+            continue
         if h[0] != "ok":
             out.report({"kind": "worker-written-off-for-a-warning", "case": j["_k"]}, {"job": j, "handled": h}, j)
             continue
@@ -100,7 +104,7 @@ def run(out: common.Outcome):
     model.close()
     out.coverage["rule"] = ("warning messages: plain strings, built-in categories, user classes (importable, importable without the attribute = locally "
                             "defined, unimportable module), constructors that need other arguments (TypeError) or raise something else, arguments "
-                            "execnet cannot dump; serialised with the real serialize_warning_message and rebuilt with the real unserialize_warning_message; "
+                            "execnet cannot dump (opaque object, str subclass, IntEnum member, object nested in a list); the event goes through execnet.dumps/loads;  serialised with the real serialize_warning_message and rebuilt with the real unserialize_warning_message; "
                             "non-trivial = the message is a Warning instance")
     out.assumptions += ["importability / constructor behaviour on the controller are oracles of the model (fed from what the driver set up)",
                         "the write-off of the worker on an exception in process_from_remote is covered by the DSession model (UWarning false)"]
